@@ -31,12 +31,14 @@ def run(ctx):
     ctx.rule("R08.2", "stroke growth")
     ctx.rule("R08.3", "union of descendant boxes")
     ctx.rule("R08.4", "Bezier extremum formulas")
+    ctx.rule("R08.5", "arc extremum candidates cover the whole angular range")
     for q in BBOXES:
         ordered_box(ctx, q)
     stroke(ctx)
     union(ctx)
     quadratic(ctx)
     cubic(ctx)
+    arc_candidates(ctx)
 
 
 # --------------------------------------------------------------------------- R08.1
@@ -373,3 +375,43 @@ def cubic(ctx):
     src = ast.unparse(bb).replace(" ", "")
     ctx.ob("R08.4", "CubicBezier.bbox[axes]", "xmin,xmax=self._real_minmax(0)" in src and "ymin,ymax=self._real_minmax(1)" in src and "returnxmin,ymin,xmax,ymax" in src.replace("(", "").replace(")", ""), "", bb.lineno,
            "x extent from coordinate 0, y extent from coordinate 1, in (xmin, ymin, xmax, ymax) order")
+
+
+def arc_candidates(ctx):
+    """Arc.bbox tries the extremum angles ang + k x half-turn.  With ang in [-90, 90] degrees (an arctangent, 0 or a quarter
+    turn), the start angle theta in [0, 360] (as_positive_degrees) and the extent delta in [-360, 360] (one SVG arc), every
+    angle of the arc lies in [-360, 720]; the multiples needed to reach every angle congruent to ang in that interval are
+    k = -2 .. 4 (interval arithmetic: (-360 - 90)/180 = -2.5 and (720 + 90)/180 = 4.5).  The loop must cover them."""
+    fn = ctx.fn("Arc.bbox", "R08.5")
+    inv = [s for s in fn.body if isinstance(s, ast.FunctionDef)]
+    ctx.need(len(inv) == 1, "R08.5", "Arc.bbox: parameter inversion helper not found")
+    h = inv[0]
+    a, k = [x.arg for x in h.args.args][:2]
+    ret = [s for s in h.body if isinstance(s, ast.Return)][0]
+    got = Alg(atom_map={"self.theta": "TH", "self.delta": "DL"}).ev(ret.value)
+    want = ((atom(a) + atom("pi") * atom(k)) * const(360) / (const(2) * atom("pi")) - atom("TH")) / atom("DL")
+    ctx.ob("R08.5", "Arc.bbox[candidate parameter]", got == want, str(got), h.lineno,
+           "a candidate angle ang + k half-turns maps to the curve parameter ((ang + k pi) in degrees - theta) / delta")
+    loops = [s for s in fn.body if isinstance(s, ast.For)]
+    ctx.need(len(loops) == 1, "R08.5", "Arc.bbox: candidate loop not found")
+    it = loops[0].iter
+    ok = False
+    detail = ast.unparse(it)
+    if isinstance(it, ast.Call) and isinstance(it.func, ast.Name) and it.func.id == "range" and len(it.args) == 2:
+        try:
+            lo, hi = ast.literal_eval(it.args[0]), ast.literal_eval(it.args[1])
+            ok = lo <= -2 and hi >= 5
+            detail = "k in [%d, %d]; needed [-2, 4]" % (lo, hi - 1)
+        except ValueError:
+            raise AnalysisError("R08.5", "Arc.bbox: loop bounds not literal: %s" % detail)
+    else:
+        raise AnalysisError("R08.5", "Arc.bbox: candidate loop is not range(lo, hi): %s" % detail)
+    ctx.ob("R08.5", "Arc.bbox[multiples cover the angular range]", ok, detail, loops[0].lineno,
+           "an extremum that only the missing multiple reaches is not a candidate: the box then stops at an end point and no longer contains the arc")
+    # both axes are tested with the range 0..1 inclusive and append the curve point on the matching axis
+    src = ast.unparse(loops[0]).replace(" ", "")
+    ok = "if0<=tx<=1:xtrema.append(self.point(tx).x)" in src.replace("\n", "") and "if0<=ty<=1:ytrema.append(self.point(ty).y)" in src.replace("\n", "")
+    ctx.ob("R08.5", "Arc.bbox[candidates kept iff on the arc, per axis]", ok, "", loops[0].lineno, "x candidates feed the x extent, y candidates the y extent, only for parameters on the arc")
+    theta = ctx.m.cls("Arc").getters.get("theta")
+    ok = theta is not None and "as_positive_degrees" in ast.unparse(theta)
+    ctx.ob("R08.5", "Arc.theta in [0, 360]", ok, "", theta.lineno if theta is not None else 0, "the interval argument relies on a non-negative start angle")
